@@ -331,6 +331,52 @@ Section WithKdf.
       end.
 
   (* SetAdmin: rename, then (repaired code) fsync of the base directory *)
+  (* What Remove reports (it reported nothing before the repair of b74e4b4): os.Remove(name) is
+     unlink then rmdir; its error is rmdir's unless that is ENOTDIR, then unlink's; a missing
+     file (ENOENT) is not an error.  Both names and the directory sync are always attempted,
+     the first error is returned.  [remove_err f l s]: does os.Remove on [l] from state [s]
+     return an error other than "does not exist"? *)
+  Definition remove_err (f : option fault) (l : loc) (s : tstate) : bool :=
+    match l with
+    | LFile fname =>
+        let (e1, s1) := tick f KUnlink s in
+        match dlookup fname (t_dir s1) with
+        | Some (File _) =>
+            match e1 with
+            | None => false                              (* unlinked *)
+            | Some _ => true                             (* unlink failed; rmdir says ENOTDIR (or is the injected call) *)
+            end
+        | Some (Dir kids) =>
+            let (e2, _) := tick f KUnlink s1 in
+            match e2, kids with
+            | None, [] => false                          (* rmdir removed the empty directory *)
+            | _, _ => true                               (* injected error on rmdir, or ENOTEMPTY *)
+            end
+        | None =>
+            let (e2, _) := tick f KUnlink s1 in
+            match e2 with
+            | None => false                              (* ENOENT from rmdir: not an error *)
+            | Some _ => true
+            end
+        end
+    | _ => false
+    end.
+
+  Definition p_remove_user_res (f : option fault) (d : dirst) (u : bytes) : res :=
+    let s := t0 d in
+    if negb (valid_name u) then ROk
+    else
+      let ea := remove_err f (LFile (u ++ ext_admin)) s in
+      let s1 := p_remove f (LFile (u ++ ext_admin)) s in
+      let eu := remove_err f (LFile (u ++ ext_user)) s1 in
+      let s2 := p_remove f (LFile (u ++ ext_user)) s1 in
+      let (e3, s3) := tick f KOpen s2 in
+      let esync := match e3 with
+                   | Some _ => true
+                   | None => let (e4, _) := tick f KFsync s3 in match e4 with Some _ => true | None => false end
+                   end in
+      if ea || eu || esync then RErr else ROk.
+
   Definition p_set_admin (f : option fault) (d : dirst) (u : bytes) (admin : bool) : res * tstate :=
     let s := t0 d in
     if negb (valid_name u) then (RErr, s)
